@@ -204,10 +204,12 @@ def _run(case, rec, kind, legacy, body, commands, encode, header, heartbeat):
         c = call(cls, **case['vals'])
         if not c.ok:
             rec.count('lib_refused')
+            rec.count('lib_refused:' + str(c.exc_type))
             return
         m = common.lib_marshal(c.value, case['ch'])
         if not m.ok:
             rec.count('lib_refused')
+            rec.count('lib_refused:' + str(m.exc_type))
             return
         seen = boundary.method_values(c.value, spec)
         try:
@@ -241,12 +243,14 @@ def _run(case, rec, kind, legacy, body, commands, encode, header, heartbeat):
         c = call(commands.Basic.Properties, **case['props'])
         if not c.ok:
             rec.count('lib_refused')
+            rec.count('lib_refused:' + str(c.exc_type))
             return
         wgt = [0, 0, 0, 1, 65535][rec.evaluations % 5]
         h = header.ContentHeader(wgt, case['size'], c.value)
         m = common.lib_marshal(h, case['ch'])
         if not m.ok:
             rec.count('lib_refused')
+            rec.count('lib_refused:' + str(m.exc_type))
             return
         seen = boundary.props_values(c.value)
         try:
@@ -292,6 +296,7 @@ def _run(case, rec, kind, legacy, body, commands, encode, header, heartbeat):
         e = call(fn, v)
         if not e.ok:
             rec.count('lib_refused')
+            rec.count('lib_refused:' + str(e.exc_type))
             return
         try:
             ref = reff(v, legacy)
@@ -341,6 +346,7 @@ def _run(case, rec, kind, legacy, body, commands, encode, header, heartbeat):
         m = common.lib_marshal(g, u.value[1])
         if not m.ok:
             rec.count('lib_refused')
+            rec.count('lib_refused:' + str(m.exc_type))
             return
         seen = boundary.props_values(g.properties)
         try:
@@ -366,6 +372,7 @@ def _run(case, rec, kind, legacy, body, commands, encode, header, heartbeat):
         m = common.lib_marshal(body.ContentBody(case['body']), case['ch'])
         if not m.ok:
             rec.count('lib_refused')
+            rec.count('lib_refused:' + str(m.exc_type))
             return
         rec.nt(canon.digest_bytes(case['body']) ^ case['ch'])
         rec.seen('kinds', 'body')
@@ -391,6 +398,7 @@ def _run(case, rec, kind, legacy, body, commands, encode, header, heartbeat):
         m = common.lib_marshal(header.ProtocolHeader(a, b, c), 0)
         if not m.ok:
             rec.count('lib_refused')
+            rec.count('lib_refused:' + str(m.exc_type))
             return
         rec.nt(canon.digest(('ph', a, b, c)))
         rec.seen('kinds', 'protocol')
@@ -404,6 +412,7 @@ def _run(case, rec, kind, legacy, body, commands, encode, header, heartbeat):
         e = call(fn, case['v'])
         if not e.ok:
             rec.count('lib_refused')
+            rec.count('lib_refused:' + str(e.exc_type))
             return
         try:
             ref = ref_prim(case['t'], case['v'])
